@@ -179,6 +179,20 @@ func check(seq []int, local int) func(any) (string, string) {
 			return "harness setup failed: " + r.SetupErr, name
 		}
 		concurrent := local >= 4 && local <= 6
+		if local == 6 {
+			// A concurrent OpenChannel may take a local id that the sequence freed by closing
+			// a channel; later packets "for O/I" then reach the new channel at a moment the
+			// model cannot know. Such executions are checked for panics, hangs and the
+			// return of the call only.
+			for i, k := range seq {
+				if (k == ssh.VerifC36CloseO || k == ssh.VerifC36CloseI) && i < len(seq)-1 {
+					if !r.LocalDone {
+						return "local call did not return", name
+					}
+					return "", ""
+				}
+			}
+		}
 		// the local call's own traffic shows up at the peer too: filter it out
 		var syncGot, asyncGot []string
 		for _, d := range r.PeerGot {
